@@ -5,7 +5,7 @@ CONSTANTS
   MaxF = 0
   UseStop = FALSE
   Flat = FALSE
-  Pre = FALSE
+  Pre = TRUE
   Shape = "wiggle"
   MaxP = 2
   MaxW = 3
